@@ -88,6 +88,11 @@ pub fn universe() -> Vec<RuleSpec> {
     let mut r = mk("r12", "r12 headers{X=v} (condition shared with r5 in one matcher)");
     r.headers = vec![hc("is_equals", "X", Some("v"))];
     v.push(r);
+    // r14: the same ip constraint twice (in two spellings) and the same method twice: the route reaches its bucket several times
+    let mut r = mk("r14", "r14 static /a + ips[10.0.0.1, 10.0.0.1/32] + methods[GET,GET]");
+    r.ips = Some(vec![(true, "10.0.0.1".into()), (true, "10.0.0.1/32".into())]);
+    r.methods = Some(vec!["GET".into(), "GET".into()]);
+    v.push(r);
     // r13: the empty host is legal and means "any host"
     let mut r = mk("r13", "r13 host \"\" (any host) static /a");
     r.host = Some(String::new());
